@@ -55,6 +55,15 @@ ENGINES["syncobj"] = {
     "stub": ["streams -> seeded chunking / truncating readers and short writers; scripted VNode behind the retry wrapper", "clock -> testing/synctest fake clock"],
 }
 
+ENGINES["client"] = {
+    "pkg": "./harness/client",
+    "instr": ["tun/client:1"],
+    "osredirect": "tun/client/config.go",
+    "inject": {"tun/client/zz_verif_export.go": "inject/client/zz_verif_export.go", "tun/client/ui/build/index.html": "inject/client/index.html"},
+    "real": ["tun/client/config.go (NewConfig, validate, writeFile; its os import redirected to the simulated disk), gopkg.in/yaml.v3"],
+    "stub": ["file system -> simfs in-memory disk with an operation log; embedded UI assets -> one placeholder file (they are not in the checkout)"],
+}
+
 def ring(level="exploration", quick=240, thorough=6000, note=""):
     return {"engine": "ring", "level": level, "quick": quick, "thorough": thorough, "note": note}
 
@@ -100,7 +109,12 @@ PROPS.update({
     "C46": syncobj(quick=3000, thorough=200000),
 })
 
+PROPS.update({
+    "C45": {"engine": "client", "level": "fault_enumeration", "quick": 400, "thorough": 20000},
+})
+
 RULES = {
+    "client": "one evaluation = one seeded client configuration (certificate, key, tunnels) saved 1-3 times with changed content on the simulated disk; every operation boundary of every save is a crash image that is loaded with the real NewConfig; distinct = distinct configurations",
     "syncobj": "one evaluation = one seeded plan (operations per task, chunk sizes, delays, close/cancel/deadline instants, scripted outcomes) executed on the real object under a seeded schedule; distinct = distinct (task, yield site) sequences (for the enumerated checks C15/C38: distinct cells); non-trivial by the per-check rule in the harness (more than one successful transition / payload larger than the buffer / more than one task ...)",
     "store": "one evaluation = one seeded history of KV operations applied to one backend (memory / append-only log on the simulated disk / SQLite through the recording VFS) inside a simulated run, compared with the reference model operation by operation; "
              "non-trivial = the history drove the model through more than 3 distinct states; distinct = distinct histories (hash of the plan) - for concurrent runs distinct (task, yield site) sequences",
@@ -203,7 +217,7 @@ def build(engine, tmp):
     rc, out = sh([GO, "build", "-o", os.path.join(bdir, "instr"), "./cmd/instr"], cwd=sim, timeout=900)
     if rc != 0:
         raise BuildError("building the instrumenter failed:\n" + out)
-    rc, out = sh([os.path.join(bdir, "instr"), "-mod", sim, "-repo", REPO, "-out", bdir, "-overlay-extra", os.path.join(bdir, "extra.json")] + e["instr"], cwd=sim, timeout=900)
+    rc, out = sh([os.path.join(bdir, "instr"), "-mod", sim, "-repo", REPO, "-out", bdir, "-overlay-extra", os.path.join(bdir, "extra.json"), "-osredirect", e.get("osredirect", "")] + e["instr"], cwd=sim, timeout=900)
     if rc != 0:
         raise BuildError("instrumenting %s failed:\n%s" % (REPO, out))
     binp = os.path.join(bdir, engine + ".test")
